@@ -783,5 +783,5 @@ func init() {
 	register(engineProp{id: "C06", checkFn: "EngineRun.check_seq", gen: genC06,
 		rule: "tables with planted duplicates built from rows that differ only in kind or in how %v prints them (1 vs \"1\", \"1 b:x\", \"map[\", nested arrays/objects vs their text) x SELECT DISTINCT, and UNION / UNION ALL chains of 2-4 branches with random ALL flags, projections and LIMIT/OFFSET; observable: the exact sequence of rows; every case is non-trivial"})
 	register(engineProp{id: "C08", checkFn: "EngineRun.check_seq", gen: genC08,
-		rule: "documents holding arrays of arrays (depth 2-3, ragged, empty inner arrays) x filter/projection queries (C01 predicates, C02 select lists), a quarter of them through mix=>; observable: the nested result; every case is non-trivial"})
+		rule: "documents holding arrays of arrays (depth 2-3, ragged, empty inner arrays) x filter/projection queries (C01 predicates, C02 select lists), a quarter of them through mix=>; FROM sources that are selectors over 2- and 3-dimensional documents (keep=> with each / index / slice per dimension, flattening brackets, pipes, `::`, mix=> first or last), resolved in the model by the C09 reader model; observable: the nested result; every case is non-trivial"})
 }
